@@ -678,9 +678,17 @@ func (in *interp) http(s *Service, m *Method) {
 			}
 		}
 		for _, p := range h.Params {
-			dsl.Param(mapped(p))
+			if p.Val != nil {
+				dsl.Param(mapped(p), in.attFunc(&Att{Val: p.Val}, false))
+			} else {
+				dsl.Param(mapped(p))
+			}
 		}
 		for _, p := range h.Headers {
+			if p.Val != nil {
+				dsl.Header(mapped(p), in.attFunc(&Att{Val: p.Val}, false))
+				continue
+			}
 			dsl.Header(mapped(p))
 		}
 		for _, p := range h.Cookies {
